@@ -361,3 +361,297 @@ B('f_c13_collect_groups_app_per_route', ['C13'], 'R13.d',
 B('f_c13_collect_groups_inner_reversed', ['C13'], 'R13.b',
   (A, _GMA, ''),
   (A, _GM, '    mw_groups = [app_middlewares]\n    mw_groups.extend(broute.middlewares[::-1] for broute in reversed(bound_routes))\n' + _GROUP_LOOP))
+
+# ---- C13 / R13.e: the wrapped entry point is never removed / replaced after construction -------------------------------
+# who may write the entry slot: the application class, through self, and only a wrapping of its current value; no spelling
+# deletes it (the attribute would fall back to the bare method and every wrapper would be gone for later requests)
+_CRE = '        check_render_error(error_handler.render_error, self.resources)\n'
+B('f_c13_entry_del_guarded', ['C13'], 'R13.e',
+  (A, _CRE + _SEH, _CRE + "        if '_dispatch_wsgi' in self.__dict__:\n            del self._dispatch_wsgi\n" + _SEH))
+B('f_c13_entry_vars_pop', ['C13'], 'R13.e',
+  (A, _CRE + _SEH, _CRE + "        vars(self).pop('_dispatch_wsgi', None)\n" + _SEH))
+B('f_c13_entry_delattr_try', ['C13'], 'R13.e',
+  (A, _CRE + _SEH, _CRE + "        try:\n            delattr(self, '_dispatch_wsgi')\n        except AttributeError:\n            pass\n" + _SEH))
+B('f_c13_entry_ns_alias_pop', ['C13'], 'R13.e',
+  (A, _CRE + _SEH, _CRE + "        own = self.__dict__\n        own.pop('_dispatch_wsgi', None)\n" + _SEH))
+B('f_c13_entry_object_delattr', ['C13'], 'R13.e',
+  (A, _CRE + _SEH, _CRE + "        if '_dispatch_wsgi' in vars(self):\n            object.__delattr__(self, '_dispatch_wsgi')\n" + _SEH))
+# the slot is rebuilt from the bare method, by other spellings of a store
+B('f_c13_entry_setattr_rebuilt', ['C13'], 'R13.e',
+  (A, _SEH, "        setattr(self, '_dispatch_wsgi', _safe_wrap_wsgi('error_handler', error_handler, type(self)._dispatch_wsgi.__get__(self)))\n"))
+B('f_c13_entry_dict_item_rebuilt', ['C13'], 'R13.e',
+  (A, _SEH, "        self.__dict__['_dispatch_wsgi'] = _safe_wrap_wsgi('error_handler', error_handler, type(self)._dispatch_wsgi.__get__(self))\n"))
+B('f_c13_entry_dict_update_rebuilt', ['C13'], 'R13.e',
+  (A, _SEH, "        self.__dict__.update(_dispatch_wsgi=_safe_wrap_wsgi('error_handler', error_handler, type(self)._dispatch_wsgi.__get__(self)))\n"))
+# ... somewhere else than in set_error_handler: add() "refreshes" the entry point; another class / module touches it
+B('f_c13_entry_reset_in_add', ['C13'], 'R13.e',
+  (A, '        rf = cast_to_route_factory(entry)\n', "        rf = cast_to_route_factory(entry)\n        self.__dict__.pop('_dispatch_wsgi', None)\n"))
+B('f_c13_entry_plain_store_in_add', ['C13'], 'R13.e',
+  (A, '        rf = cast_to_route_factory(entry)\n',
+      "        rf = cast_to_route_factory(entry)\n        self._dispatch_wsgi = _safe_wrap_wsgi('error_handler', self.error_handler, type(self)._dispatch_wsgi.__get__(self))\n"))
+B('f_c13_entry_popped_by_subapplication', ['C13'], 'R13.e',
+  (A, "        kwargs['prefix'] = self.prefix\n", "        kwargs['prefix'] = self.prefix\n        vars(self.app).pop('_dispatch_wsgi', None)\n"))
+B('f_c13_entry_written_from_outside', ['C13'], 'R13.e',
+  (A, "        kwargs['prefix'] = self.prefix\n", "        kwargs['prefix'] = self.prefix\n        app._dispatch_wsgi = _safe_wrap_wsgi('error_handler', app.error_handler, app._dispatch_wsgi)\n"))
+B('f_c13_entry_namespace_cleared', ['C13'], 'R13.e',
+  (A, '        rf = cast_to_route_factory(entry)\n',
+      "        rf = cast_to_route_factory(entry)\n        if kwargs.get('reset'):\n            self.__dict__.clear()\n"))
+# equivalent / unrelated spellings stay silent: a wrapping store spelled setattr; reads of the namespace; another key
+T('f_c13_entry_store_by_setattr', ['C13'],
+  (A, _SEH, "        setattr(self, '_dispatch_wsgi', _safe_wrap_wsgi('error_handler', error_handler, self._dispatch_wsgi))\n"))
+T('f_c13_entry_namespace_reads', ['C13'],
+  (A, _CRE + _SEH, _CRE + "        already_wrapped = '_dispatch_wsgi' in self.__dict__\n        previous = vars(self).get('_dispatch_wsgi')\n" + _SEH))
+T('f_c13_entry_other_key_popped', ['C13'],
+  (A, _CRE + _SEH, _CRE + "        self.__dict__.pop('_error_handler_cache', None)\n        vars(self).pop('_fallback', None)\n" + _SEH))
+T('f_c13_entry_second_wrapping_method', ['C13'],
+  (A, "    def iter_routes(self):\n        for rt in self.routes:\n",
+      "    def add_wsgi_wrapper(self, source):\n        self._dispatch_wsgi = _safe_wrap_wsgi('wrapper', source, self._dispatch_wsgi)\n\n"
+      "    def iter_routes(self):\n        for rt in self.routes:\n"))
+# the stack is named before a namespace spelling removes the slot in between: the local is stale
+B('f_c13_entry_pop_between_read_and_store', ['C13'], 'R13.e',
+  (A, _SEH, "        inner_wsgi = self._dispatch_wsgi\n        self.__dict__.pop('_dispatch_wsgi', None)\n"
+            "        self._dispatch_wsgi = _safe_wrap_wsgi('error_handler', error_handler, inner_wsgi)\n"))
+
+# ---- C13 / R13.b: the wrappers applied by functools.reduce / accumulated in a local ------------------------------------
+_STEP = ("def _wrap_one(inner, mw):\n    return _safe_wrap_wsgi('middleware', mw, inner)\n\n\n"
+         "def _safe_wrap_wsgi(source_name, source, inner):\n")
+_SWDEF = "def _safe_wrap_wsgi(source_name, source, inner):\n"
+_IMP = 'import itertools\n'
+_LOOP2 = ('        for mw in reversed(all_mws):\n' + _WL)
+T('f_c13_wrap_reduce_step_function', ['C13'],
+  (A, _IMP, 'import functools\n' + _IMP), (A, _SWDEF, _STEP),
+  (A, _LOOP2, '        self._dispatch_wsgi = functools.reduce(_wrap_one, reversed(all_mws), self._dispatch_wsgi)\n'))
+T('f_c13_wrap_reduce_lambda_named_result', ['C13'],
+  (A, _IMP, 'from functools import reduce\n' + _IMP),
+  (A, _LOOP2, "        stack = reduce(lambda inner, mw: _safe_wrap_wsgi('middleware', mw, inner), all_mws[::-1], self._dispatch_wsgi)\n"
+              '        self._dispatch_wsgi = stack\n'))
+T('f_c13_wrap_accumulated_in_local', ['C13'],
+  (A, _LOOP2, "        stack = self._dispatch_wsgi\n        for mw in reversed(all_mws):\n            stack = _safe_wrap_wsgi('middleware', mw, stack)\n"
+              '        self._dispatch_wsgi = stack\n'))
+B('f_c13_wrap_reduce_not_reversed', ['C13'], 'R13.b',
+  (A, _IMP, 'import functools\n' + _IMP), (A, _SWDEF, _STEP),
+  (A, _LOOP2, '        self._dispatch_wsgi = functools.reduce(_wrap_one, all_mws, self._dispatch_wsgi)\n'))
+B('f_c13_wrap_reduce_step_swapped', ['C13'], 'R13.b',
+  (A, _IMP, 'import functools\n' + _IMP), (A, _SWDEF, _STEP.replace("'middleware', mw, inner", "'middleware', inner, mw")),
+  (A, _LOOP2, '        self._dispatch_wsgi = functools.reduce(_wrap_one, reversed(all_mws), self._dispatch_wsgi)\n'))
+B('f_c13_wrap_reduce_from_bare_method', ['C13'], 'R13.b',
+  (A, _IMP, 'import functools\n' + _IMP), (A, _SWDEF, _STEP),
+  (A, _LOOP2, '        self._dispatch_wsgi = functools.reduce(_wrap_one, reversed(all_mws), type(self)._dispatch_wsgi.__get__(self))\n'))
+B('f_c13_wrap_accumulated_never_stored_back', ['C13'], 'R13.b',
+  (A, _LOOP2, "        stack = self._dispatch_wsgi\n        for mw in reversed(all_mws):\n            stack = _safe_wrap_wsgi('middleware', mw, stack)\n"))
+B('f_c13_wrap_accumulated_restarts', ['C13'], 'R13.b',
+  (A, _LOOP2, "        stack = self._dispatch_wsgi\n        for mw in reversed(all_mws):\n            stack = _safe_wrap_wsgi('middleware', mw, self._dispatch_wsgi)\n"
+              '        self._dispatch_wsgi = stack\n'))
+# ---- C13 / R13.b: the two walks of _get_all_middlewares come out of one source line (chain(...) split by the front-end) --
+T('f_c13_collect_chain_of_both', ['C13'],
+  (A, _GMA, ''),
+  (A, _GM, '    route_mws = itertools.chain.from_iterable(broute.middlewares for broute in reversed(bound_routes))\n'
+           '    for mw in itertools.chain(app_middlewares, route_mws):\n        if mw not in all_mw:\n            all_mw.append(mw)\n'))
+T('f_c13_collect_helper_result_aliased', ['C13'],
+  (A, 'def _get_all_middlewares(bound_routes, app_middlewares=()):\n',
+      'def _add_new(seen, candidates):\n    for candidate in candidates:\n        if candidate not in seen:\n            seen.append(candidate)\n    return seen\n\n\n'
+      'def _get_all_middlewares(bound_routes, app_middlewares=()):\n'),
+  (A, '    all_mw = []\n', ''), (A, _GMA, '    all_mw = _add_new([], app_middlewares)\n'),
+  (A, _GM + '\n    return all_mw\n', '    per_route = (broute.middlewares for broute in reversed(bound_routes))\n'
+                                       '    return _add_new(all_mw, itertools.chain.from_iterable(per_route))\n'))
+B('f_c13_collect_chain_routes_first', ['C13'], 'R13.b',
+  (A, _GMA, ''),
+  (A, _GM, '    route_mws = itertools.chain.from_iterable(broute.middlewares for broute in reversed(bound_routes))\n'
+           '    for mw in itertools.chain(route_mws, app_middlewares):\n        if mw not in all_mw:\n            all_mw.append(mw)\n'))
+
+# =====================================================================================================================
+# C12: state that survives the request -- the four kinds, in the core (R12.a) and in the rest of the tree (R12.e)
+# =====================================================================================================================
+URL = 'clastic/middleware/url.py'
+FORM = 'clastic/middleware/form.py'
+TAB = 'clastic/render/tabular.py'
+_GZ_COMP = '        comp_content = gzip_bytes(resp.data, self.compress_level)\n'
+_URL_KW = ('    def request(self, next, request):\n        kwargs = {}\n        for p_name, p_type in self.params.items():\n'
+           '            kwargs[p_name] = request.args.get(p_name, None, p_type)\n')
+_FORM_KW = ('    def request(self, next, request):\n        kwargs = {}\n        for p_name, p_type in self.params.items():\n'
+            '            kwargs[p_name] = request.form.get(p_name, None, p_type)\n')
+_RS_MIME = "        resp_mime = self._format_mime_map.get(req_format)\n"
+_RS_INIT = "        self.qp_name = kwargs.pop('qp_name', 'format')\n"
+_SFR = ('    def get_file_response(self, request):\n        bfr = build_file_response\n        resp = bfr(self.file_path,\n')
+_CK_EXP = "        self['_expires'] = epoch_time\n"
+_CK_SAVE = ('        save_cookie_kwargs = dict(key=self.cookie_name,\n'
+            '                                  domain=self.domain,\n'
+            '                                  path=self.path,\n'
+            '                                  secure=self.secure,\n'
+            '                                  httponly=self.http_only)\n')
+
+# ---- kind 1: memo caches / counters on objects that outlive the request ----------------------------------------------------
+B('f_c12_ring_gzip_ratio_on_self', ['C12'], 'R12.e',
+  (GZ, _GZ_COMP, _GZ_COMP + '        self.last_ratio = len(comp_content) / float(len(resp.data) or 1)\n'))
+B('f_c12_ring_render_memo_through_local', ['C12'], 'R12.e',
+  (RS, _RS_INIT, _RS_INIT + '        self._mime_memo = {}\n'),
+  (RS, _RS_MIME, '        memo = self._mime_memo\n' + _RS_MIME + '        memo[req_format] = resp_mime\n'))
+B('f_c12_ring_static_route_hit_counter', ['C12'], 'R12.e',
+  (ST, _SFR, '    def get_file_response(self, request):\n        self.served = getattr(self, \'served\', 0) + 1\n'
+             '        bfr = build_file_response\n        resp = bfr(self.file_path,\n'))
+B('f_c12_ring_static_app_lookup_memo', ['C12'], 'R12.e',
+  (ST, '            full_path = find_file(self.search_paths, path)\n',
+       "            known = self.__dict__.setdefault('_known', {})\n            full_path = known.get(path) or find_file(self.search_paths, path)\n"
+       '            self._known[path] = full_path\n'))
+B('f_c12_ring_tabular_last_route', ['C12'], 'R12.e',
+  (TAB, "        content_parts = [self._html_wrapper]\n", "        self._last_route = _route\n        content_parts = [self._html_wrapper]\n"))
+# the renderer's own table filled in by its constructor; a per-request dict; a copy of a field: all silent
+T('f_c12_ring_ctor_fills_own_table', ['C12'],
+  (RS, _RS_INIT, _RS_INIT + '        self._mime_memo = {}\n        self._mime_memo[None] = self._default_mime\n'))
+T('f_c12_ring_fresh_memo_per_request', ['C12'],
+  (RS, _RS_MIME, '        memo = {}\n' + _RS_MIME + '        memo[req_format] = resp_mime\n'))
+T('f_c12_ring_copy_of_field_updated', ['C12'],
+  (URL, _URL_KW, '    def request(self, next, request):\n        kwargs = dict(self.params)\n        for p_name, p_type in self.params.items():\n'
+                 '            kwargs[p_name] = request.args.get(p_name, None, p_type)\n'))
+T('f_c12_ring_cookie_instance_write', ['C12'],
+  (CK, _CK_EXP, _CK_EXP + "        self.modified = True\n        self.setdefault('_seen', []).append(epoch_time)\n"))
+
+# ---- kind 2: defaults evaluated once ---------------------------------------------------------------------------------------
+# core: the default object is updated in place -- whatever the parameter is called (``headers`` has a per-request role name)
+B('f_c12_default_set_updated', ['C12'], 'R12.a',
+  (A, '    def update_methods(self, methods):\n        if methods:\n            self.allowed_methods.update(methods)\n',
+      '    def update_methods(self, methods, seen=set()):\n        if methods:\n            seen.update(methods)\n'
+      '            self.allowed_methods.update(seen)\n'))
+B('f_c12_default_list_role_named', ['C12'], 'R12.a',
+  (A, '    def add_exception(self, exception):\n        self.exceptions.append(exception)\n',
+      '    def add_exception(self, exception, headers=[]):\n        headers.append(exception)\n        self.exceptions.append(exception)\n'))
+B('f_c12_default_dict_item_store', ['C12'], 'R12.a',
+  (A, '    def update_methods(self, methods):\n', '    def update_methods(self, methods, params={}):\n        params[len(params)] = methods\n'))
+# a default that is a call: evaluated when the def is executed, not per request
+B('f_c12_default_counter_call', ['C12'], 'R12.e',
+  (A, '    def update_methods(self, methods):\n', '    def update_methods(self, methods, stamp=next(_REQ_ID_ITER)):\n        self.stamp = stamp\n'))
+B('f_c12_ring_default_clock_call', ['C12'], 'R12.e',
+  (CK, '    def request(self, next, request):\n', '    def request(self, next, request, now=time.time()):\n'))
+B('f_c12_ring_default_dict_updated', ['C12'], 'R12.e',
+  (URL, _URL_KW, '    def request(self, next, request, kwargs={}):\n        for p_name, p_type in self.params.items():\n'
+                 '            kwargs[p_name] = request.args.get(p_name, None, p_type)\n'))
+B('f_c12_ring_default_list_appended', ['C12'], 'R12.e',
+  (FORM, _FORM_KW, '    def request(self, next, request, seen=[]):\n        seen.append(request.path)\n        kwargs = {}\n'
+                   '        for p_name, p_type in self.params.items():\n            kwargs[p_name] = request.form.get(p_name, None, p_type)\n'))
+T('f_c12_ring_default_none_then_fresh', ['C12'],
+  (URL, _URL_KW, '    def request(self, next, request, kwargs=None):\n        if kwargs is None:\n            kwargs = {}\n'
+                 '        for p_name, p_type in self.params.items():\n            kwargs[p_name] = request.args.get(p_name, None, p_type)\n'))
+T('f_c12_ring_default_copied_before_update', ['C12'],
+  (URL, _URL_KW, '    def request(self, next, request, extra={}):\n        kwargs = dict(extra)\n        for p_name, p_type in self.params.items():\n'
+                 '            kwargs[p_name] = request.args.get(p_name, None, p_type)\n'))
+T('f_c12_ring_default_immutable_ctor', ['C12'],
+  (CK, '    def request(self, next, request):\n', '    def request(self, next, request, skip=frozenset(), order=tuple()):\n'))
+
+# ---- kind 3: class-level mutable attributes ----------------------------------------------------------------------------------
+_DS_INIT = '    def __init__(self):\n        self.exceptions = []\n'
+B('f_c12_class_level_list_field', ['C12'], 'R12.a',
+  (A, _DS_INIT, '    exceptions = []\n\n    def __init__(self):\n'))
+B('f_c12_class_level_field_conditionally_owned', ['C12'], 'R12.a',
+  (A, _DS_INIT, '    exceptions = []\n\n    def __init__(self):\n        if type(self) is not DispatchState:\n            self.exceptions = []\n'))
+B('f_c12_class_counter_through_dunder_class', ['C12'], 'R12.a',
+  (A, '        if methods:\n            self.allowed_methods.update(methods)\n',
+      '        if methods:\n            self.allowed_methods.update(methods)\n            self.__class__.refusals = getattr(self.__class__, \'refusals\', 0) + 1\n'))
+B('f_c12_class_registry_through_type', ['C12'], 'R12.a',
+  (A, '        if methods:\n            self.allowed_methods.update(methods)\n',
+      '        if methods:\n            self.allowed_methods.update(methods)\n            type(self).seen_methods.update(methods)\n'),
+  (A, _DS_INIT, '    seen_methods = set()\n\n' + _DS_INIT))
+B('f_c12_ring_class_level_dict_through_instance', ['C12'], 'R12.e',
+  (CK, '    serialization_method = json\n', '    serialization_method = json\n    _expiries = {}\n'),
+  (CK, _CK_EXP, _CK_EXP + '        self._expiries[epoch_time] = True\n'))
+B('f_c12_ring_class_attr_by_type', ['C12'], 'R12.e',
+  (GZ, _GZ_COMP, _GZ_COMP + '        type(self).compressed = getattr(type(self), \'compressed\', 0) + 1\n'))
+B('f_c12_ring_class_attr_by_name', ['C12'], 'R12.e',
+  (GZ, _GZ_COMP, _GZ_COMP + '        GzipMiddleware.sizes.append(len(comp_content))\n'),
+  (GZ, 'class GzipMiddleware(Middleware):\n', 'class GzipMiddleware(Middleware):\n    sizes = []\n'))
+B('f_c12_ring_classmethod_registry', ['C12'], 'R12.e',
+  (CK, '    serialization_method = json\n', '    serialization_method = json\n    _unquoted = []\n'),
+  (CK, "            value = cls.serialization_method.loads(value.decode('utf8'))\n",
+       "            value = cls.serialization_method.loads(value.decode('utf8'))\n            cls._unquoted.append(value)\n"))
+T('f_c12_class_level_default_owned_in_init', ['C12'],
+  (A, _DS_INIT, '    exceptions = ()\n    attempts = 0\n\n' + _DS_INIT + '        self.attempts += 1\n'))
+T('f_c12_ring_class_level_immutable_rebound_on_instance', ['C12'],
+  (CK, '    serialization_method = json\n', '    serialization_method = json\n    _note = None\n    _tags = ()\n'),
+  (CK, _CK_EXP, _CK_EXP + "        self._note = 'expires'\n        self._tags = self._tags + (epoch_time,)\n"))
+
+# ---- kind 4: adopted by reference, then updated in place -----------------------------------------------------------------------
+_EP = "            error_params = dict(params, _error=ret)\n"
+B('f_c12_module_dict_adopted_role_named', ['C12'], 'R12.a',
+  (A, '_REQ_ID_ITER = itertools.count()\n', '_REQ_ID_ITER = itertools.count()\n_ERROR_PARAMS = {}\n'),
+  (A, _EP, '            error_params = _ERROR_PARAMS\n            error_params.update(params, _error=ret)\n'))
+B('f_c12_module_list_appended', ['C12'], 'R12.a',
+  (A, '_REQ_ID_ITER = itertools.count()\n', '_REQ_ID_ITER = itertools.count()\n_RECENT_ERRORS = []\n'),
+  (A, _EP, _EP + '            _RECENT_ERRORS.append(ret)\n'))
+B('f_c12_ring_field_adopted_then_filled', ['C12'], 'R12.e',
+  (URL, _URL_KW, '    def request(self, next, request):\n        kwargs = self.params\n        for p_name, p_type in list(self.params.items()):\n'
+                 '            kwargs[p_name] = request.args.get(p_name, None, p_type)\n'))
+B('f_c12_ring_module_dict_adopted', ['C12'], 'R12.e',
+  (CK, 'DEFAULT_EXPIRY = SESSION\n', 'DEFAULT_EXPIRY = SESSION\n_SAVE_KW = {}\n'),
+  (CK, _CK_SAVE, '        save_cookie_kwargs = _SAVE_KW\n        save_cookie_kwargs.update(key=self.cookie_name, domain=self.domain, path=self.path,\n'
+                 '                                  secure=self.secure, httponly=self.http_only)\n'))
+B('f_c12_ring_module_list_appended', ['C12'], 'R12.e',
+  (FORM, 'class PostDataMiddleware(Middleware):\n', '_POSTED = []\n\n\nclass PostDataMiddleware(Middleware):\n'),
+  (FORM, _FORM_KW, _FORM_KW + '        _POSTED.append(request.path)\n'))
+B('f_c12_ring_module_counter_global', ['C12'], 'R12.e',
+  (FORM, 'class PostDataMiddleware(Middleware):\n', '_POSTS = 0\n\n\nclass PostDataMiddleware(Middleware):\n'),
+  (FORM, _FORM_KW, '    def request(self, next, request):\n        global _POSTS\n        _POSTS += 1\n        kwargs = {}\n'
+                   '        for p_name, p_type in self.params.items():\n            kwargs[p_name] = request.form.get(p_name, None, p_type)\n'))
+T('f_c12_module_dict_copied', ['C12'],
+  (A, '_REQ_ID_ITER = itertools.count()\n', '_REQ_ID_ITER = itertools.count()\n_ERROR_PARAMS = {}\n'),
+  (A, _EP, '            error_params = dict(_ERROR_PARAMS)\n            error_params.update(params, _error=ret)\n'))
+T('f_c12_ring_module_dict_copied_and_read', ['C12'],
+  (CK, 'DEFAULT_EXPIRY = SESSION\n', "DEFAULT_EXPIRY = SESSION\n_SAVE_KW = {'path': '/'}\n"),
+  (CK, _CK_SAVE, '        save_cookie_kwargs = dict(_SAVE_KW)\n        save_cookie_kwargs.update(key=self.cookie_name, domain=self.domain, path=self.path,\n'
+                 '                                  secure=self.secure, httponly=self.http_only)\n        root_only = _SAVE_KW.get(\'path\') == self.path\n'))
+
+# ---- C12 / R12.a: a chain builder that accumulates the text over a loop with carried state ----------------------------------
+# (the nesting structure is not followed; the *set of line templates* is, by abstract evaluation -- c12_gen.py)
+_CARRIED_HEAD = ("    defs, tails = [], []\n"
+                 "    cur = level\n"
+                 "    for func, level_params in zip(funcs, params):\n"
+                 "        params_sofar.update(level_params)\n"
+                 "        names = sorted(set(get_fb(func).get_arg_names()))\n"
+                 "        kwargs = ', '.join(['%s=%s' % (n, n) for n in names if n in params_sofar])\n"
+                 "        defs.append('%sdef %s(%s):\\n' % (_INDENT * cur, inner_name, ', '.join(level_params)))\n")
+_CARRIED_TAIL = ("        cur += 1\n"
+                 "    return ''.join(defs + tails[::-1])\n\n\n"
+                 "def _unused_recursive_form(funcs, params, inner_name, params_sofar, level):\n")
+_CARRIED_OK = "        tails.append('%s__traceback_hide__ = True\\n%sreturn funcs[%s](%s)\\n' % (_INDENT * (cur + 1), _INDENT * (cur + 1), cur, kwargs))\n"
+T('f_c12_chain_builder_loop_carried_level', ['C12'],
+  (S, _BCS_OLD_HEAD, _CARRIED_HEAD + _CARRIED_OK + _CARRIED_TAIL))
+T('f_c12_chain_builder_loop_enumerate_named_text', ['C12'],
+  (S, _BCS_OLD_HEAD, _CARRIED_HEAD.replace('for func, level_params in zip(funcs, params):', 'for i, func in enumerate(funcs):\n        level_params = params[i]')
+      + _CARRIED_OK + "        cur = cur + 1\n    text = ''.join(defs + list(reversed(tails)))\n    return text\n\n\n"
+                      "def _unused_recursive_form(funcs, params, inner_name, params_sofar, level):\n"))
+B('f_c12_chain_builder_loop_global_line', ['C12'], 'R12.a',
+  (S, _BCS_OLD_HEAD, _CARRIED_HEAD + "        tails.append('%sglobal last_level\\n%slast_level = %s\\n' % (_INDENT * (cur + 1), _INDENT * (cur + 1), cur))\n"
+      + _CARRIED_OK + _CARRIED_TAIL))
+B('f_c12_chain_builder_loop_heap_store_line', ['C12'], 'R12.a',
+  (S, _BCS_OLD_HEAD, _CARRIED_HEAD + "        defs.append('%sfuncs[%s].calls = 1\\n' % (_INDENT * (cur + 1), cur))\n" + _CARRIED_OK + _CARRIED_TAIL))
+B('f_c12_chain_builder_loop_reads_shared_name', ['C12'], 'R12.a',
+  (S, _BCS_OLD_HEAD, _CARRIED_HEAD + "        tails.append('%slast_context = _shared\\n' % (_INDENT * (cur + 1),))\n" + _CARRIED_OK + _CARRIED_TAIL))
+B('f_c12_chain_builder_initial_list_item', ['C12'], 'R12.a',
+  (S, _BCS_OLD_HEAD, _CARRIED_HEAD.replace("defs, tails = [], []", "defs, tails = [], ['global chain_depth\\n']") + _CARRIED_OK + _CARRIED_TAIL))
+
+# ---- C12 / R12.e: other spellings of a write to a long-lived receiver ----------------------------------------------------------
+_SR = '        return next(**{self.provided_name: request.script_root})\n'
+B('f_c12_ring_setattr_on_self', ['C12'], 'R12.e',
+  (URL, _SR, "        setattr(self, 'last_root', request.script_root)\n" + _SR))
+B('f_c12_ring_vars_of_self', ['C12'], 'R12.e',
+  (URL, _SR, "        vars(self)['hits'] = vars(self).get('hits', 0) + 1\n" + _SR))
+B('f_c12_ring_instance_dict_update', ['C12'], 'R12.e',
+  (URL, _SR, "        self.__dict__.update(last_root=request.script_root)\n" + _SR))
+B('f_c12_ring_module_attribute_rebound', ['C12'], 'R12.e',
+  (URL, 'from .core import Middleware\n', 'from .core import Middleware\nfrom . import core as _core\n'),
+  (URL, _SR, "        _core.LAST_SCRIPT_ROOT = request.script_root\n" + _SR))
+T('f_c12_ring_setattr_on_response', ['C12'],
+  (URL, _SR, "        resp = next(**{self.provided_name: request.script_root})\n        setattr(resp, 'script_root', request.script_root)\n"
+             "        vars(resp)['seen_by'] = self.provided_name\n        return resp\n"))
+
+# ---- C12 / R12.e: a closure the constructor builds runs while requests are served ---------------------------------------------
+CTX = 'clastic/middleware/context.py'
+_PRC = ('            desired_args = self.required + list(self.defaults.keys())\n')
+B('f_c12_ring_ctor_closure_writes_self', ['C12'], 'R12.e',
+  (CTX, _PRC, '            self.last_context = context\n' + _PRC))
+B('f_c12_ring_ctor_closure_updates_field_alias', ['C12'], 'R12.e',
+  (CTX, '    def _create_render(self):\n', '    def _create_render(self):\n        remembered = self.defaults\n'),
+  (CTX, '                context[arg] = kwargs.get(arg, self.defaults.get(arg))\n',
+        '                context[arg] = kwargs.get(arg, self.defaults.get(arg))\n                remembered[arg] = context[arg]\n'))
+T('f_c12_ring_ctor_closure_own_locals', ['C12'],
+  (CTX, _PRC, '            filled = {}\n' + _PRC),
+  (CTX, '                context[arg] = kwargs.get(arg, self.defaults.get(arg))\n',
+        '                context[arg] = kwargs.get(arg, self.defaults.get(arg))\n                filled[arg] = context[arg]\n'))
